@@ -1,4 +1,4 @@
-from . import checks_tier, checks_tg, checks_file, checks_audio
+from . import checks_tier, checks_tg, checks_file, checks_audio, checks_misc
 
 CHECKS = {}
 for _p in checks_tier.PROPS:
@@ -11,4 +11,6 @@ CHECKS["C01"] = checks_file.check_c01
 CHECKS["C16"] = checks_audio.check_c16
 CHECKS["C17"] = checks_audio.check_c17
 CHECKS["C18"] = checks_audio.check_c18
+CHECKS["C19"] = checks_misc.check_c19
+CHECKS["C20"] = checks_misc.check_c20
 REPLAYERS = {}
